@@ -220,16 +220,62 @@ pub fn run(tier: &str, seed: u64, out: &str) {
             (n, distinct)
         },
     );
+    // ---- extreme values: every combination of the four clock fields over the edges of the u64
+    // range (anything `parse::<u64>()` accepts is a clock value the command can carry); arithmetic
+    // on them must neither panic (the harness is built with overflow checks, like `cargo run`)
+    // nor produce a budget beyond the mover's time
+    const EXTREME: [u64; 9] = [0, 1, 5000, u32::MAX as u64, u32::MAX as u64 + 1, i64::MAX as u64, i64::MAX as u64 + 1, u64::MAX - 1, u64::MAX];
+    let mut eunits: Vec<(bool, u64)> = Vec::new();
+    for stm in [true, false] {
+        for &t in &EXTREME {
+            eunits.push((stm, t));
+        }
+    }
+    let eres: Vec<(u64, u64)> = par_map_init(
+        &eunits,
+        || (make_engine(true), make_engine(false)),
+        |engines, &(stm, own_time)| {
+            crate::search::verif::set_dry_run(true);
+            let fl = if stm { &mut engines.0 } else { &mut engines.1 };
+            let mut baseline: HashMap<(bool, u64, u64), u128> = HashMap::new();
+            let mut n = 0u64;
+            let mut distinct = 0u64;
+            for &own_inc in &EXTREME {
+                distinct += 1;
+                for &opp_time in &EXTREME {
+                    for &opp_inc in &EXTREME {
+                        let vals = if stm { [own_time, opp_time, own_inc, opp_inc] } else { [opp_time, own_time, opp_inc, own_inc] };
+                        for perm in &orders {
+                            if rep.saturated() {
+                                return (n, distinct);
+                            }
+                            let mut line = "go".to_string();
+                            for &t in perm {
+                                line.push_str(&format!(" {} {}", names[t], vals[t]));
+                            }
+                            n += 1;
+                            check_line(fl, stm, &line, own_time, own_inc, &mut baseline, &rep);
+                        }
+                    }
+                }
+            }
+            (n, distinct)
+        },
+    );
+    let en: u64 = eres.iter().map(|r| r.0).sum();
+    let edistinct: u64 = eres.iter().map(|r| r.1).sum();
+
     let dn: u64 = dres.iter().map(|r| r.0).sum();
     let ddistinct: u64 = dres.iter().map(|r| r.1).sum();
-    let n: u64 = results.iter().map(|r| r.0).sum::<u64>() + dn;
-    let distinct: u64 = results.iter().map(|r| r.1).sum::<u64>() + ddistinct;
+    let n: u64 = results.iter().map(|r| r.0).sum::<u64>() + dn + en;
+    let distinct: u64 = results.iter().map(|r| r.1).sum::<u64>() + ddistinct + edistinct;
     let samples: Vec<String> = results.iter().flat_map(|r| r.2.iter().cloned()).take(8).collect();
     let cov = J::obj()
         .set("evaluations", n)
         .set("distinct_nontrivial", distinct)
         .set("rule", "grid: own time in 19 values (0 .. 24 h, dense around the 5 s reserve) x own increment in 6 values x opponent time 19 x opponent increment 6 x all 24 orders of the four token pairs x {no prefix, 'depth 5'} x both sides to move; plus every presence subset containing the mover's time in every order. A case is distinct by (side to move, own time, own increment); all other dimensions must not change the budget.")
         .set("dense_sweep", J::obj().set("own_time_from", 0u64).set("own_time_to", dense_to).set("step", 1u64).set("go_lines", dn).set("own_clock_points", ddistinct).set("increments_per_point", "0, 1, 100, 1000, 60000, time-1, time, time+1, time/2").set("opponent_clocks_per_point", 3u64).set("token_orders_per_point", 4u64))
+        .set("extreme_values", J::obj().set("values_per_field", "0, 1, 5000, 2^32-1, 2^32, 2^63-1, 2^63, 2^64-2, 2^64-1").set("go_lines", en).set("own_clock_points", edistinct).set("rule", "all 9^4 combinations of the four fields x 4 token orders x both sides to move"))
         .set("exhaustive", true)
         .set("samples", samples);
     rep.finish(
